@@ -2365,7 +2365,20 @@ def seq_lemmas(repo, tier):
     return {"obligations": out, "functions": []}
 
 
-EXTRA = [_site_runner(i) for i in range(len(SITES))] + [image_sites, sniffers_agree, seq_lemmas, pdf_content_type, rel_type_selection, odf_length]
+def accessors(repo, tier):
+    """Round 7: the observation accessors (get_metadata / get_content_type / get_bytes) of the six image classes of the formats the property
+    quantifies over, each under a contract verified on its real body (contracts/c14_access.py); a refutation counts when the native grid
+    (replay/C14.py::check_accessors) reproduces it."""
+    try:
+        from contracts import c14_access as A
+        return confirm_natively(A.run(repo, tier, contracts), repo)
+    except Exception as e:  # noqa
+        g = ground_obligation("C14/data_types.py::image-accessors/ensures#executable", False, f"not executable: {type(e).__name__}: {e}"[:300], DT,
+                              kind="ensures", definite=False)
+        return {"obligations": [g], "functions": []}
+
+
+EXTRA = [_site_runner(i) for i in range(len(SITES))] + [image_sites, sniffers_agree, seq_lemmas, pdf_content_type, rel_type_selection, odf_length, accessors]
 
 
 def lemmas():
